@@ -14,6 +14,8 @@
 //     literal starts with node.ResetSuperglobals(); routesFinalized: every
 //     `….source.Handle(pattern, h)` passes an h assigned from finalizeHandler(…).
 //   - pkgVars: all package-level variables of std/net/http and of the node files.
+//   - registries: every use of a package-level map / sync.Map of std/net/http with its key
+//     expression and whether that key is the *http.Request itself (registries.go).
 //   - nodeWrites: every place where an evaluation-time method of a type of package node (a
 //     method with a `data.Context` parameter — GetValue, Call, SetValue, … — or a method of the
 //     same receiver it calls, transitively, also through embedded types) stores into a field of
@@ -226,7 +228,6 @@ func main() {
 		fmt.Fprintln(os.Stderr, "c11:", err)
 		os.Exit(1)
 	}
-	_ = fset
 	var hnames []string
 	for n := range httpFiles {
 		hnames = append(hnames, n)
@@ -571,6 +572,10 @@ func main() {
 	for _, c := range counters {
 		ctl = append(ctl, fmt.Sprintf("    ⟨%s, %s, %v⟩", ex.LeanString(c.name), ex.LeanString(c.typ), c.atomic))
 	}
+	var rgl []string
+	for _, s := range scanRegistries(fset, httpFiles, bad) {
+		rgl = append(rgl, fmt.Sprintf("    ⟨%s, %s, %s, %s, %s⟩", ex.LeanString(s.vr), ex.LeanString(s.fn), ex.LeanString(s.op), ex.LeanString(s.key), ex.LeanString(s.keyIs)))
+	}
 	sort.Strings(shape)
 	var sl []string
 	for i, s := range shape {
@@ -578,13 +583,13 @@ func main() {
 			sl = append(sl, ex.LeanString(s))
 		}
 	}
-	fmt.Fprintf(&sb, "\n  ],\n  nodeWrites := [\n%s\n  ],\n  depthGuards := [\n%s\n  ],\n  vmCounters := [\n%s\n  ],\n  shape := [%s]\n}\n\nend Generated.C11Superglobals\n", strings.Join(nwl, ",\n"), strings.Join(gl, ",\n"), strings.Join(ctl, ",\n"), strings.Join(sl, ", "))
+	fmt.Fprintf(&sb, "\n  ],\n  nodeWrites := [\n%s\n  ],\n  depthGuards := [\n%s\n  ],\n  vmCounters := [\n%s\n  ],\n  registries := [\n%s\n  ],\n  shape := [%s]\n}\n\nend Generated.C11Superglobals\n", strings.Join(nwl, ",\n"), strings.Join(gl, ",\n"), strings.Join(ctl, ",\n"), strings.Join(rgl, ",\n"), strings.Join(sl, ", "))
 	if err := ex.WriteIfChanged(a.Out, "C11Superglobals.lean", sb.String()); err != nil {
 		fmt.Fprintln(os.Stderr, err)
 		os.Exit(1)
 	}
-	fmt.Printf("C11Superglobals: %d cells, %d request functions, %d package vars, %d receiver stores in evaluation methods of package node, %d guards on %d VM counters, outerReset=%v routesFinalized=%v, %d shape notes\n",
-		len(cl), len(el), len(pl), len(nwl), len(gl), len(ctl), outerReset, routesFinalized, len(sl))
+	fmt.Printf("C11Superglobals: %d cells, %d request functions, %d package vars, %d receiver stores in evaluation methods of package node, %d guards on %d VM counters, %d registry sites, outerReset=%v routesFinalized=%v, %d shape notes\n",
+		len(cl), len(el), len(pl), len(nwl), len(gl), len(ctl), len(rgl), outerReset, routesFinalized, len(sl))
 }
 
 func unparen(e ast.Expr) ast.Expr {
